@@ -42,10 +42,33 @@ def to_frac(x, D, rel=1e-9):
     return BADQ
 
 
+NPT = {"int8": np.int8, "int16": np.int16, "int32": np.int32, "int64": np.int64, "uint8": np.uint8,
+       "uint16": np.uint16, "uint32": np.uint32, "uint64": np.uint64, "float32": np.float32, "float64": np.float64}
+FULL_PRECISION = ("float", "int", "int64", "float64", "mixed_int")
+
+
+def conv_args(vals, argtype):
+    """coordinates the way a user may pass them: python floats / ints, numpy scalars of any dtype, mixed"""
+    if argtype in (None, "float"):
+        return [float(v) for v in vals]
+    if argtype == "int":
+        return [int(v) for v in vals]
+    if argtype == "mixed32":            # x as float32, y as float64 (order of vals: x..., then y...)
+        h = len(vals) // 2
+        return [np.float32(v) for v in vals[:h]] + [np.float64(v) for v in vals[h:]]
+    if argtype == "mixed_int":          # python ints and floats mixed
+        return [int(v) if i % 2 == 0 else float(v) for i, v in enumerate(vals)]
+    return [NPT[argtype](v) for v in vals]
+
+
 def job_plane(j):
     sc = j["scale"]
-    xs = [v / sc for v in j["xs"]]
-    ys = [v / sc for v in j["ys"]]
+    at = j.get("argtype")
+    bx, by = j.get("base") or (0, 0)       # translation (the table the spec sees is relative to it)
+    num = (lambda v, b: b + v // sc) if at in ("int", "int64") else (lambda v, b: b + v / sc)
+    xs = conv_args([num(v, bx) for v in j["xs"]], at if at != "mixed32" else "float32")
+    ys = conv_args([num(v, by) for v in j["ys"]], at if at != "mixed32" else "float64")
+    rel = 1e-9 if at in (None,) + FULL_PRECISION else 1e-5      # float32 arithmetic for the narrow types
     n = len(xs)
     fn = P.euclidean_distance if j["metric"] == "E" else P.manhattan_distance
     obs, bt, raw = [], [], []
@@ -61,7 +84,7 @@ def job_plane(j):
             if j["metric"] == "E":
                 v = v * v
             k = int(round(v))
-            ro.append(k if abs(v - k) <= 1e-9 * max(1.0, abs(v)) and k >= 0 else -2)
+            ro.append(k if abs(v - k) <= rel * max(1.0, abs(v)) and k >= 0 else -2)
         obs.append(ro)
         bt.append(rb)
     return {"kind": "plane", "metric": j["metric"], "xs": j["xs"], "ys": j["ys"], "scale": sc,
@@ -72,6 +95,11 @@ def job_sphere(j):
     lon, lat = j["lon"], j["lat"]
     n = len(lon)
     rad = j.get("radius")
+    at = j.get("argtype")
+    dsc = j.get("sc", 1)                   # coordinates are given in 1/sc degrees
+    lo = conv_args([v / dsc if dsc != 1 else v for v in lon], at if at != "mixed32" else "float32")
+    la = conv_args([v / dsc if dsc != 1 else v for v in lat], at if at != "mixed32" else "float64")
+    full = at in (None,) + FULL_PRECISION
     m, z, bt = [], [], []
     err = None
     for a in range(n):
@@ -79,10 +107,9 @@ def job_sphere(j):
         for b in range(n):
             try:
                 if rad is None:
-                    d = float(P.great_circle_distance(float(lon[a]), float(lon[b]), float(lat[a]), float(lat[b])))
+                    d = float(P.great_circle_distance(lo[a], lo[b], la[a], la[b]))
                 else:
-                    d = float(P.great_circle_distance(float(lon[a]), float(lon[b]), float(lat[a]), float(lat[b]),
-                                                      float(rad)))
+                    d = float(P.great_circle_distance(lo[a], lo[b], la[a], la[b], float(rad)))
             except Exception as ex:   # inside the domain: must not raise
                 d = float("nan")
                 err = "%s: %s" % (type(ex).__name__, ex)
@@ -95,15 +122,17 @@ def job_sphere(j):
                 rz.append(1 if d == 0.0 else 0)
         m.append(rm); z.append(rz); bt.append(rb)
     R = 6378137.0 if rad is None else float(rad)
+    # narrow argument types make numba compute the haversine in float32 (7 digits: metres at planetary scale)
     out = {"kind": "sphere", "lon": lon, "lat": lat, "m": m, "zero": z, "bits": bt,
-           "piR": int(math.ceil(math.pi * R)), "slack": 2}
+           "piR": int(math.ceil(math.pi * R)) + (0 if full else 16), "slack": 2 if full else 64,
+           "ztol": 0 if full else 8, "sc": dsc}
     if err:
         out["error"] = err
     return out
 
 
 def job_range(j):
-    x1, x2, y1, y2 = [float(v) for v in j["vals"]]
+    x1, x2, y1, y2 = conv_args(j["vals"], j.get("argtype"))
     raised, finite, other = 0, 0, None
     try:
         d = float(P.great_circle_distance(x1, x2, y1, y2))
@@ -130,6 +159,12 @@ def arg(q, how):
         return int(q[0])
     if how == "np":
         return np.float64(v)
+    if how == "np32":
+        return np.float32(v)
+    if how == "npint":
+        return np.int64(q[0]) if q[1] == 1 else np.float64(v)
+    if how == "int32":
+        return np.int32(q[0]) if q[1] == 1 else np.float32(v)
     if how == "str":
         return repr(v) if q[1] != 1 else str(q[0])
     return float(v)
